@@ -73,7 +73,11 @@ pub fn jpanic(p: &(String, String)) -> Value {
 pub struct Rng(pub u64);
 impl Rng {
     pub fn new(seed: u64) -> Rng {
-        Rng(seed.wrapping_mul(0x9E3779B97F4A7C15).wrapping_add(0x1234_5678_9abc_def1))
+        // hash the seed so that consecutive seeds give unrelated streams
+        let mut z = seed.wrapping_add(0x1234_5678_9abc_def1);
+        z = (z ^ (z >> 30)).wrapping_mul(0xBF58476D1CE4E5B9);
+        z = (z ^ (z >> 27)).wrapping_mul(0x94D049BB133111EB);
+        Rng(z ^ (z >> 31))
     }
     pub fn next(&mut self) -> u64 {
         self.0 = self.0.wrapping_add(0x9E3779B97F4A7C15);
